@@ -1,19 +1,20 @@
-"""C02 - see vf/props/brokerh.py (shared broker transition harness) and DESIGN.md section 3/C02."""
-from vf.props import brokerh
+"""C02 - holdings equal the net of all fills and are valued at the latest price.
+(i) shared broker transition harness (vf/props/brokerh.py); (ii) direct Portfolio/PositionHandler ladders (vf/props/ladder02.py)."""
+from vf.props import brokerh, ladder02
 
-EXPLANATION = brokerh.__doc__
+EXPLANATION = brokerh.__doc__ + '\n' + ladder02.__doc__
 ASSUMPTIONS = [
     'exact real arithmetic; round(x,2)/round(x) are uninterpreted functions with |round(x)-x| <= half a unit (ties not modelled)',
-    'structural bound: <= 2 portfolios, <= 2 assets, <= 2 builder fills per position, <= 2 (thorough 3) pending orders, one operation (two updates in thorough)',
-    'quotes: fresh symbolic (bid, ask) per update and asset from a stub data handler that records the dt it is asked for; bid != ask, positive unless a configuration says otherwise',
-    'fill quantities are non-zero integers |q| < 1e6; fee rates in [0,1]; instants are integer nanoseconds within 40 days of a Monday epoch; the builder instant lies in exchange hours',
-    'fills are observed at the broker/portfolio boundary (Transaction objects passed to Portfolio.transact_asset)',
+    'structural bound: <= 2 portfolios, <= 2 assets, <= 2 builder fills per position, <= 2 (thorough 3) pending orders, one operation (two updates in thorough); ladders of 3 (thorough 4) fill/mark steps on 2 assets',
+    'quotes: fresh symbolic (bid, ask) per update and asset from a stub data handler that records the dt it is asked for; bid != ask, positive',
+    'fill quantities are non-zero integers |q| < 1e6; prices > 0; commissions >= 0; instants are integer nanoseconds, non-decreasing',
 ]
 DEADLINE = {'quick': 1500, 'thorough': 3400}
 
 
 def configs(tier):
-    return brokerh.configs_for('C02', tier)
+    return brokerh.configs_for('C02', tier) + ladder02.configs(tier)
 
 
-make = brokerh.make
+def make(cfg):
+    return ladder02.make(cfg) if cfg['kind'] == 'ladder02' else brokerh.make(cfg)
